@@ -258,6 +258,12 @@ func (p *fmter) printComment(comment Comment) {
 
 func (p *fmter) doDescription(desc Description) {
 	linesOut := reformatDescription(desc.Value, 80-p.indent*4)
+	if len(linesOut) == 0 {
+		// a description without words is still a statement: keep the bare
+		// '|' rather than turning it into a blank line, which the next
+		// formatting pass would treat differently.
+		linesOut = []string{""}
+	}
 	p.multiLineToken(desc.SourceNode, "| ", linesOut)
 }
 
